@@ -52,6 +52,7 @@ EXPECTED_FAULTS = {"C01": ["model_absent", "model_absent_fresh_process", "random
                            "omitted_ts", "debug_logging", "stack_depth_limit"]}
 DETERMINISM_SAMPLE = {"quick": 3, "thorough": 6}
 EXHAUSTIVE = {}
+MIN_CASES = {'quick': 450, 'thorough': 8000}
 STEP_CAP = 400_000
 STEP_CAP_UNLIMITED = 15_000
 
